@@ -13,7 +13,7 @@ RULE = ("metric cases: WeightedLevenshtein(ins,del,sub) / Levenshtein().calc_cdi
         "order-revealing callables f(a)*31+g(b), float-valued callables with dtype=float, default metric, and keyword forwarding "
         "(the callable records its kwargs). distinct_nontrivial = distinct cases with at least two different distances.")
 ASSUMPTIONS = ["the functional helpers' documented uint8 default is respected: distances > 255 are only requested with an explicit wider dtype",
-               "weights are positive integers; totals beyond 2^24 (weights of 10^6 and more) are compared at the single-precision resolution of the returned matrices"]
+               "weights are positive integers; totals beyond 2^24 (weights of 10^6 and more) are compared at the single-precision resolution of the returned matrices; totals of 2^31 and more are not demanded (the unchanged code is itself inexact there)"]
 EXHAUSTIVE = {"quick": ["all strings len<=3 over AB as A and B, 6 weight triples", "pdist layout for every m in 2..9"],
               "thorough": ["all strings len<=4 over AB as A and B, 14 weight triples", "all strings len<=3 over ABC, 6 weight triples", "pdist layout for every m in 2..14"]}
 REQUIRE = {"pdist_big_cases": 1, "huge_weight_cases": 2, "long_one_sided_calls": 22, "cdist_cells_checked": 2328, "pdist_entries_checked": 500, "asymmetric_weight_cases": 20, "sub_gt_ins_plus_del_cases": 4,
@@ -177,7 +177,7 @@ def k_pdist_big(ctx, m, w, np_seed):
 
 
 def k_hugeweights(ctx, A, B, w):
-    """Weights of 10^6 .. 10^9: the result matrix is single precision, so the comparison is made at float32 resolution
+    """Weights of 10^6 .. 5*10^6 (totals below 2^31): the result matrix is single precision, so the comparison is made at float32 resolution
     (relative 2^-22); a wrapped or truncated total is off by orders of magnitude."""
     import numpy as np
     ins, dele, sub = w
@@ -323,8 +323,8 @@ def generate(tier, seed):
     if thorough:
         yield "pdist_big", {"m": 8200, "w": [1, 1, 1], "np_seed": 8801 + seed}, True
         yield "pdist_big", {"m": 4100, "w": [2, 3, 4], "np_seed": 8802 + seed}, True
-    # very large weights (totals beyond 2^32)
-    for w in ([10 ** 9, 10 ** 9, 1], [2 ** 24, 2 ** 24, 2 ** 24], [10 ** 7, 3 * 10 ** 7, 5 * 10 ** 7], [1, 1, 10 ** 9]):
+    # large weights (totals beyond 2^24 but below 2^31: where the unchanged code itself is exact to single precision and no integer width is exhausted)
+    for w in ([5 * 10 ** 6, 5 * 10 ** 6, 1], [2 ** 20, 2 ** 20, 2 ** 20], [10 ** 6, 3 * 10 ** 6, 5 * 10 ** 6], [1, 1, 5 * 10 ** 6]):
         yield "hugeweights", {"A": ["CASSLGQGNTEAFF", "", "A" * 256, "CAF"], "B": ["CAF", "A" * 256, "CASSLGQGNTEAFF", "C" * 300], "w": w}, True
     # long strings (no wrap-around): lengths up to 400, completely different / nearly identical
     lens = [(300, 300), (400, 400), (256, 255), (400, 0), (0, 300), (257, 300), (130, 400), (399, 400)]
